@@ -215,7 +215,13 @@ impl ParsedFormula {
     }
 
     pub fn to_free_index(&self, ns: &NamedSymbol) -> usize {
-        self.raw2free[ns.id].unwrap_or_else(|| panic!("{} is not a free variable", ns))
+        // raw2free is indexed by position in `vars`, not by variable id: ids are sparse as soon as
+        // an ordering lists names the formula does not use
+        self.vars
+            .binary_search(ns)
+            .ok()
+            .and_then(|i| self.raw2free[i])
+            .unwrap_or_else(|| panic!("{} is not a free variable", ns))
     }
 
     pub fn extract_vars(tokens: &[SymbolicBDDToken]) -> Vec<NamedSymbol> {
